@@ -452,8 +452,77 @@ func VH_C14_shutdown_through_handle() {
 	verifAssert("C14.shutdown-handle.associations", len(verifChanTargets) == n && len(um.entries) == n)
 	for i := 0; i < len(verifChanTargets) && i < len(um.entries); i++ {
 		verifAssert("C14.shutdown-handle.socket-closed", verifChanTargets[i].Closed() == 1)
+		verifAssert("C18.udp.socket-gone-after-shutdown", verifChanTargets[i].Closed() == 1)
 		verifAssert("C14.shutdown-handle.removed-once", um.entries[i].removed == 1)
 	}
 	verifAssert("C14.shutdown-handle.no-goroutine-left", verifBlockedIn("timedCopy") == 0)
 	verifReach("C14.shutdown-handle.done", true)
+}
+
+// C16: a reply that could not be written to the client is reported with status ERR_WRITE and
+// zero bytes sent to the client; the other replies are unaffected
+func VH_C16_failed_client_write() {
+	verifResetNet()
+	cl, specs, _ := verifMakeList(1, 1, false)
+	key := verifKey(specs[0].cipher, verifSecrets[specs[0].secret])
+	um := &verifUDPMetrics{}
+	h := NewPacketHandler(defaultNatTimeout, cl, um, nil)
+	client := &verifPacketConn{name: "client"}
+	failAt := 1 + verifChoice("fail-at", 3)
+	client.writeFailAt = failAt
+	src := &net.UDPAddr{IP: net.IPv4(93, 184, 216, 34), Port: 4000}
+	bodies := [][]byte{verifBytes("b1", 2), verifBytes("b2", 3), verifBytes("b3", 1)}
+	verifReplyScript = func(i int, pc *verifPacketConn) {
+		for _, b := range bodies {
+			pc.reads = append(pc.reads, verifRead{data: b, n: len(b), addr: src})
+		}
+	}
+	client.reads = []verifRead{{data: verifPack(key, verifSocksV4([]byte{93, 184, 216, 34}, 443, []byte("q"))), addr: verifClientAddrs[0]}}
+	h.Handle(client)
+	verifQuiesce()
+	verifAssert("C16.failed-write.reports", len(um.entries) == 1 && len(um.entries[0].fromTarget) == 3)
+	if len(um.entries) == 1 && len(um.entries[0].fromTarget) == 3 {
+		sent := int64(0)
+		for i, r := range um.entries[0].fromTarget {
+			if i+1 == failAt {
+				verifAssert("C16.failed-write.status-and-zero-bytes", r.status == "ERR_WRITE" && r.a == int64(len(bodies[i])) && r.b == 0)
+			} else {
+				verifAssert("C16.failed-write.others-ok", r.status == "OK" && r.a == int64(len(bodies[i])))
+			}
+			sent += r.b
+		}
+		total := int64(0)
+		for _, w := range client.Writes() {
+			total += int64(len(w.data))
+		}
+		verifAssert("C16.failed-write.sum-equals-socket", sent == total)
+	}
+	verifReach("C16.failed-write.done", true)
+}
+
+// C04: after its listener generation has ended, a client's next datagram (handled by the next
+// generation) finds the old association expired: one live outbound socket per client address
+func VH_C04_one_socket_across_generations() {
+	verifResetNet()
+	verifTargetBlocking = true
+	verifChanTargets = nil
+	defer func() { verifTargetBlocking = false }()
+	cl, specs, _ := verifMakeList(1, 1, false)
+	key := verifKey(specs[0].cipher, verifSecrets[specs[0].secret])
+	for gen := 0; gen < 2; gen++ {
+		h := NewPacketHandler(defaultNatTimeout, cl, &verifUDPMetrics{}, nil)
+		client := &verifPacketConn{name: "client"}
+		client.reads = []verifRead{{data: verifPack(key, verifSocksV4([]byte{93, 184, 216, 34}, 443, []byte("x"))), addr: verifClientAddrs[0]}}
+		h.Handle(client) // returns when this generation's listener handle is closed
+		verifQuiesce()
+		live := 0
+		for _, t := range verifChanTargets {
+			if t.Closed() == 0 {
+				live++
+			}
+		}
+		verifAssert("C04.generations.at-most-one-live-socket-per-client", live <= 0)
+	}
+	verifAssert("C04.generations.two-associations-in-total", len(verifChanTargets) == 2)
+	verifReach("C04.generations.done", true)
 }
